@@ -45,6 +45,12 @@ def cases(tier, seed):
         yield dict(kind='file', forecasts=chunk)
     for chunk in space.chunks(fcs, 12):
         yield dict(kind='resample', forecasts=chunk)
+    # magnitude bins 0.01 wide (bin centres with three decimals) and half a unit wide, for the resampling tests and the M-test
+    for mg in ([4.03, 0.01], [-0.5, 0.5]):
+        for chunk in space.chunks(fcs[::3], 12):
+            yield dict(kind='resample', forecasts=chunk, maggrid=mg)
+        for chunk in space.chunks(fcs[::3], 40):
+            yield dict(kind='mem', forecasts=chunk, obs_max=2, maggrid=mg)
     for chunk in space.chunks(fcs, 40):
         yield dict(kind='history', forecasts=chunk)
     # structured LARGE forecasts and observations (size-dependent paths): many synthetic catalogs, many events
@@ -195,8 +201,19 @@ class Ref:
 
 
 # ----------------------------------------------------------------------------- real objects
+_MAG = [None]          # None: unit-wide magnitude bins from 5.0; else (first edge, width) of the current case
+
+
+def _half():
+    return 0.5 if _MAG[0] is None else _MAG[0][1] / 2
+
+
 def setup():
     reg, origins, mags = fixtures.grid_setup(NC, NM)
+    if _MAG[0] is not None:
+        m0, w = _MAG[0]
+        mags = [round(m0 + w * k, 10) for k in range(NM)]
+        reg = fixtures.cartesian_region(origins, 0.1, magnitudes=mags)
     return reg, origins, mags
 
 
@@ -204,7 +221,7 @@ def events(types, origins, mags, base=0):
     evs = []
     for i, t in enumerate(types):
         c, k = t // NM, t % NM
-        evs.append((f'e{base + i}', 1262304000000 + 1000 * (base + i), origins[c][1] + 0.05, origins[c][0] + 0.05, 10.0, mags[k] + 0.5))
+        evs.append((f'e{base + i}', 1262304000000 + 1000 * (base + i), origins[c][1] + 0.05, origins[c][0] + 0.05, 10.0, mags[k] + _half()))
     return evs
 
 
@@ -273,7 +290,7 @@ def run_tests(fc, forecast, obs_types, reg, origins, mags, failures, hsh, which,
     ref = Ref(forecast)
     obs = fixtures.catalog(events(obs_types, origins, mags, 500), region=reg, name='obs')
     cls = classify(forecast, obs_types, ref)
-    rep = dict(kind='single', forecast=forecast, obs=list(obs_types), storage=tag)
+    rep = dict(kind='single', forecast=forecast, obs=list(obs_types), storage=tag, maggrid=(list(_MAG[0]) if _MAG[0] else None))
     all_empty = all(len(c) == 0 for c in forecast)
     evals = 0
     table = [('number_test', ce.number_test, ref.number)]
@@ -336,7 +353,7 @@ def run_resample(forecast, obs_types, reg, origins, mags, failures, hsh):
             fc = mem_forecast(forecast, reg, origins, mags)
             obs = fixtures.catalog(events(obs_types, origins, mags, 500), region=reg, name='obs')
             site = f'catalog_evaluations.{name}'
-            rep = dict(kind='resample1', forecast=forecast, obs=list(obs_types), script=list(s))
+            rep = dict(kind='resample1', forecast=forecast, obs=list(obs_types), script=list(s), maggrid=(list(_MAG[0]) if _MAG[0] else None))
             sc = env.Script(choices=list(s))
             try:
                 with env.scripted_random(sc):
@@ -352,7 +369,7 @@ def run_resample(forecast, obs_types, reg, origins, mags, failures, hsh):
                 calls = [l for l in sc.log if l[0] == 'choice']
                 nu = sum(ref.union_counts)
                 okp = len(calls) == J and all(c[1][2] in (n, (n,)) and fixtures.close(list(c[1][1]), [x / nu for x in ref.union_counts], 1e-12, 1e-15)
-                                              and fixtures.close(list(c[1][0]), [5.5, 6.5], 1e-12, 1e-15) for c in calls)
+                                              and fixtures.close(list(c[1][0]), [m_ + _half() for m_ in mags], 1e-12, 1e-15) for c in calls)
                 if not okp:
                     failures.append(Fail(f'{site}|resampling-not-N_obs-draws-from-union-histogram|{cls}',
                                          f'choice calls {[(c[1][0], c[1][1], c[1][2]) for c in calls]} expected {J} calls of size {n} with p={[x / nu for x in ref.union_counts]}', rep))
@@ -362,6 +379,14 @@ def run_resample(forecast, obs_types, reg, origins, mags, failures, hsh):
 
 
 def run_case(case):
+    _MAG[0] = tuple(case['maggrid']) if case.get('maggrid') else None
+    try:
+        return _run_case(case)
+    finally:
+        _MAG[0] = None
+
+
+def _run_case(case):
     failures = []
     hsh = hashlib.sha1()
     numpy.random.seed(11223)
